@@ -101,10 +101,10 @@ PLAN["C05"]["thorough"] += ["clone", "view_", "entryq_"]
 
 PLAN["C03"] = {
     "quick": ["filt_q_", "view_q_", "entryq_q_"],
-    "thorough": ["view_t_", "entryq_t_", "iter_"],
-    "bounds": {"quick": "registry<=4 (+9 for the filter family), rows<=3, view lists<=5", "thorough": "same; result iterator over a table of 2 archetypes with Identifier views only"},
-    "outside": ["result iterator over several archetypes with component views (does not fit in memory; its three per-archetype steps view/reshape/iterate are checked on a local archetype, its filter separately)", "query-time Entries", "mutation through views followed by re-reads (address equality is checked instead)", "hash-order dependent interleavings of archetypes"],
-    "stubs": ["hashbrown -> /verif/models/hashbrown (E2) for entryq_/iter_", "fnv -> constant hasher"],
+    "thorough": ["view_t_", "entryq_t_"],
+    "bounds": {"quick": "registry<=4 (+9 for the filter family), rows<=3, view lists<=5", "thorough": "same, more view orders and shapes"},
+    "outside": ["result::Iter chaining across archetypes and its size_hint (does not fit in memory even for 2 archetypes x 1 row; its per-archetype steps filter, view+reshape, iterate are checked separately)", "query-time Entries", "mutation through views followed by re-reads (address equality is checked instead)", "hash-order dependent interleavings of archetypes"],
+    "stubs": ["hashbrown -> /verif/models/hashbrown (E2) for entryq_", "fnv -> constant hasher"],
     "level_text": "Bounded model checking: every filter form is compared with a reference predicate for a symbolic identifier (all component sets of the registry at once); every reference yielded by Archetype::view+reshape and by Entry::query is compared by address with the cell of exactly that component and row, optional views are None iff the bit is clear, one result per row, size_hint brackets the remaining count before every next().",
     "level_note": KANI_NOTE + ARCH_NOTE,
 }
@@ -138,6 +138,15 @@ PLAN["C18"] = {
     "level_note": KANI_NOTE,
 }
 
+PLAN["C09"] = {
+    "quick": ["par_q_"],
+    "thorough": ["par_t_"],
+    "bounds": {"quick": "rows<=3, split depth 2 (three pieces at symbolic indices), registries (A,B),(D,B,W,A)", "thorough": "same, view lists up to 5 in any order, zero-sized component, empty archetype"},
+    "outside": ["rayon's scheduler, pool sizes and real concurrent execution", "the archetype-level fan-out (ParIter / ResultsConsumer / ResultsFolder) across several archetypes", "outcome of parallel systems"],
+    "level_text": "Bounded model checking of Archetype::par_view + reshape + into_parallel_iterator driven through rayon's own Producer plumbing without threads: for every pair of split points the three pieces together visit every row exactly once in sequential order, every reference points (by address) at the cell of exactly that component and row, so no two items share a mutable cell; len/opt_len equal the row count; RepeatNone::split_at conserves the count.",
+    "level_note": KANI_NOTE + ARCH_NOTE + " Rayon's splitting policy is over-approximated by arbitrary split indices; real threads are not modelled.",
+}
+
 for _p in PLAN.values():
     _p.setdefault("level", "model_checking")
     _p.setdefault("stubs", [])
@@ -145,7 +154,7 @@ for _p in PLAN.values():
     _p.setdefault("explanation", "")
 
 _claimed = set(PLAN)
-for _p in ["C06", "C07", "C08", "C09", "C11", "C12", "C15"]:
+for _p in ["C06", "C07", "C08", "C11", "C12", "C15"]:
     if _p not in _claimed:
         NOT_APPLICABLE.append({"property_id": _p, "reason": "not claimed yet: the harnesses for this property are still under construction (see DESIGN.md build order)"})
 NOT_APPLICABLE.sort(key=lambda x: x["property_id"])
